@@ -58,11 +58,62 @@ fn gen_arg(rng: &mut Rng, long_ok: bool, blanks_ok: bool) -> Vec<u8> {
     a
 }
 
+/// -n (or -L) of 65536 and more, with that many and a few more short arguments.
+fn gen_many_args(rng: &mut Rng) -> XargsScenario {
+    let n = *rng.pick(&[65_535usize, 65_536, 65_537, 70_000]);
+    let count = match rng.below(3) {
+        0 => n,
+        1 => n + rng.urange(1, 20),
+        _ => n + n / 2,
+    };
+    let mode = rng.below(3);
+    let sep: u8 = match mode {
+        0 => b'\n',
+        1 => 0,
+        _ => b' ',
+    };
+    let mut input = Vec::with_capacity(count * 2);
+    for i in 0..count {
+        input.push(b'a' + (i % 26) as u8);
+        input.push(sep);
+    }
+    let mut opts = vec![];
+    if mode == 1 {
+        opts.push(Opt::Null);
+    }
+    // (-L counts lines: only with one argument per line)
+    if mode == 0 && rng.chance(1, 3) {
+        opts.push(Opt::L(n));
+    } else {
+        opts.push(Opt::N(n));
+    }
+    if rng.chance(1, 3) {
+        opts.push(Opt::X);
+    }
+    XargsScenario {
+        opts,
+        cmd: vec!["CMD".into()],
+        input: B(input),
+        read_plan: vec![],
+        outcomes: vec![],
+        rlimit_stack: None,
+        env: None,
+        real: None,
+        note: "sixteen-bit-counts".into(),
+        decoy_in_cwd: false,
+        echo_mode: false,
+        extra: Default::default(),
+    }
+}
+
 impl Property for C04 {
     const ID: &'static str = "C04";
     type Sc = XargsScenario;
 
     fn generate(rng: &mut Rng, _tier: Tier) -> XargsScenario {
+        if rng.chance(1, 2000) {
+            return gen_many_args(rng);
+        }
         let mut sc = XargsScenario {
             opts: vec![],
             cmd: vec!["CMD".into()],
@@ -248,7 +299,7 @@ impl Property for C04 {
             sc.note = "tight-system-budget".into();
         } else {
             sc.note = "explicit-limits".into();
-            if rng.chance(1, 40) && !sc.opts.iter().any(|o| matches!(o, Opt::S(_))) {
+            if rng.chance(1, 40) && !sc.opts.iter().any(|o| matches!(o, Opt::S(_))) && args.len() <= 60 {
                 // real children: they receive what the seam recorded, and they cannot read
                 // xargs' own input stream
                 sc.real = Some(crate::xargs::RealKind::Simchild);
@@ -302,6 +353,14 @@ impl Property for C04 {
         let tight = sc.env.is_some();
         if tight {
             rep.probe("tight_system_budget_run");
+        }
+        if cfg.n.is_some_and(|n| n >= 65_535) && spec.toks.len() >= 65_535 {
+            rep.probe("max_args_beyond_65535_with_that_many_arguments");
+            rep.want_sample = false;
+        }
+        if cfg.l.is_some_and(|n| n >= 65_535) && spec.toks.len() >= 65_535 {
+            rep.probe("max_lines_beyond_65535_with_that_many_lines");
+            rep.want_sample = false;
         }
         // probes on which limit closes batches in the reference run
         if matches!(cfg.mode, Mode::Batch) && exp.ranges.len() > 1 {
